@@ -679,7 +679,7 @@ class LoggingRandomState(np.random.RandomState):
     permutation = _logged("permutation", True)
     # every other way of drawing from the parent is logged too (`random` delegates to `random_sample` inside numpy)
     for _m in ("random_sample", "uniform", "rand", "randn", "normal", "standard_normal", "choice", "shuffle", "bytes",
-               "random_integers", "tomaxint", "exponential", "laplace", "geometric", "binomial", "get_state"):
+               "random_integers", "tomaxint", "exponential", "laplace", "geometric", "binomial"):
         locals()[_m] = _logged(_m, False)
     del _m, _logged
 
